@@ -29,7 +29,7 @@ func init() {
 		},
 		Quick:    250000,
 		Thorough: 4000000,
-		Require:  []string{"ping.writeFails", "stream.readEndsInsideNextFrame", "handshake.slow", "received.requestWithSlowHandler", "received.peerPing", "received.strayAck", "keepalive.pingSent", "tick.exactlyAtPeriod", "tick.foundInactive", "pong.superseded", "tick.insideThePeriodOfAPing", "received.droppedByRequestMonitor"},
+		Require:  []string{"ping.writeFails", "stream.readEndsInsideNextFrame", "handshake.slow", "received.requestWithSlowHandler", "received.peerPing", "received.strayAck", "keepalive.pingSent", "tick.exactlyAtPeriod", "tick.foundInactive", "pong.superseded", "tick.insideThePeriodOfAPing", "received.droppedByRequestMonitor", "tick.overlapsReceivedMessage"},
 		Assume: []string{
 			"keep-alive counts consecutive inactivity detections since the last reset; a detection is a tick later than one period after the last received message or the last detection (= the last ping), whichever is later: a ping has a period to be answered, whatever the spacing of the housekeeping ticks; the literal 'more than maxRetries pings unanswered' is never satisfied by any implementation that sends maxRetries pings",
 			"a pong for a superseded ping is accepted as either a reset or not (it is a received message; the statement does not say which wins)",
@@ -144,6 +144,7 @@ func c18Run(e *Env, keepalive bool) {
 	}
 	closed := func() bool { return w.API.Context().Err() != nil }
 	slowPending, sinceAdvance := false, 0
+	overlaps := 0
 	nonce := 0
 	pongForCurrent := false
 	var streamTail []byte // stream transports: the rest of a frame whose head arrived with the previous read
@@ -363,6 +364,49 @@ func c18Run(e *Env, keepalive bool) {
 				}
 			}
 		}})
+		if keepalive && !slowPending && detMax < int(maxRetries) && overlaps < 2 {
+			// a message arrives while a tick is between "a period has passed" and counting it: whichever of the two is
+			// taken to come first, the count is zero afterwards - the message resets it
+			evs = append(evs, Event{Label: "tick-overlaps-message", W: 2, Do: func() {
+				overlaps++
+				dt := periodStart + period - e.Now() + time.Millisecond
+				if dt < 0 {
+					dt = time.Millisecond
+				}
+				e.Sleep(dt)
+				e.Fault("tick")
+				e.EnablePark("keepalive.check.beforeCount", e.SiteHits("keepalive.check.beforeCount"))
+				newPings = 0
+				tickNow := e.Now()
+				w.Tick(time.Now())
+				e.Wait()
+				w.Pump()
+				var held *parkedG
+				for _, pg := range e.Parked() {
+					if pg.Site == "keepalive.check.beforeCount" {
+						held = pg
+					}
+				}
+				e.Logf("tick at %v stopped after it decided that a period has passed: %v", tickNow, held != nil)
+				nonce++
+				m := &WMsg{Type: TNON, Code: 1, MID: w.NextPeerMID(), Token: []byte{0x58, byte(nonce)}, Opts: []WOpt{{Num: OptURIPath, Val: []byte("m")}}}
+				deliver(m, fmt.Sprintf("message #%d (while the tick is under way)", nonce), 1)
+				e.Wait()
+				w.Pump()
+				if held != nil {
+					e.NonTrivial()
+					e.Probe("tick.overlapsReceivedMessage")
+					e.Resume(held)
+					e.Wait()
+					w.Pump()
+				}
+				// tick first (a detection, reset by the message) or message first (no detection): zero either way
+				detMin, detMax, shadow = 0, 0, 0
+				if closed() {
+					e.Violate("C18.R3", "keepalive-closed-before-retries-exhausted", "a tick and a received message overlapped with at most %d detections before; the connection was closed", maxRetries-1)
+				}
+			}})
+		}
 		w.Step(evs)
 		if closed() {
 			break
